@@ -112,10 +112,16 @@ class Case:
         self.name_of = {}; self.extra_files = {}; self.in_domain = True
         self.meta = {}
     # -- building --
-    def put_block(self, nfile, blk_raw, pad=b'', magic=None, at=None):
+    def put_block(self, nfile, blk_raw, pad=b'', magic=None, at=None, size=None):
         """appends (or places at absolute offset `at`) pad + magic + size + block; returns the data offset recorded in the index"""
         magic = struct.pack('<I', COINS[self.coin]['magic']) if magic is None else magic
         exts = self.files.setdefault(nfile, [])
+        if size is not None:      # a stored length prefix that is not the length of the block that follows
+            rec = pad + magic + struct.pack('<I', size) + blk_raw
+            if at is None:
+                if exts: o, d = exts[-1]; exts[-1] = (o, d + rec); return o + len(d) + len(pad) + 8
+                exts.append((0, rec)); return len(pad) + 8
+            exts.append((at, rec)); return at + len(pad) + 8
         if at is None:
             if exts: o, d = exts[-1]; exts[-1] = (o, d + pad + magic + struct.pack('<I', len(blk_raw)) + blk_raw); return o + len(d) + len(pad) + 8
             exts.append((0, pad + magic + struct.pack('<I', len(blk_raw)) + blk_raw)); return len(pad) + 8
